@@ -35,6 +35,12 @@ def corpus_cfgs():
     out.append(dict(base, s=1e-3, N=4, sample_kwargs=dict(adaptive=True, beta_tolerance=5e-2)))      # F3: no progress
     out.append(dict(base, sample_kwargs=dict(adaptive=True, min_step=0.3, max_n_steps=2)))           # cap with beta < 1
     out.append(dict(base, kind="minipcn_smc", sample_kwargs=dict(adaptive=True, n_final_samples=16)))
+    # the minimum step decides the LAST step: beta_prev + min_step would overshoot 1 (peaked likelihood, floor 0.3 / 0.4 / 1/12)
+    out.append(dict(base, s=0.05, sample_kwargs=dict(adaptive=True, min_step=0.3)))
+    out.append(dict(base, s=0.05, sample_kwargs=dict(adaptive=True, min_step=0.4, target_efficiency=0.9)))
+    out.append(dict(base, s=0.05, sample_kwargs=dict(adaptive=True, max_n_steps=12)))
+    # the final enlargement with its own number of kernel steps (must survive an interruption and a resume)
+    out.append(dict(base, kind="minipcn_smc", n_final_steps=3, sample_kwargs=dict(adaptive=True, n_final_samples=12)))
     return out
 
 
